@@ -5,6 +5,9 @@
 From Compio.Model Require Import Base DriverKeys.
 
 Definition dec_ev (kind key arg : N) : ev :=
+  (* an id that is not a small key number (the harness prints 9999999 for an
+     address it never saw allocated) is an anomaly, never converted to nat *)
+  if N.ltb 100000 key then EKeyFree 100000 else
   let k := nn key in
   match kind with
   | 1%N => EKeyNew k
